@@ -413,3 +413,40 @@ func (c *Ctx) nonStringKindGate(fn *ssa.Function, site ssa.CallInstruction) bool
 	}
 	return false
 }
+
+// R-FRESHDEC (C07 "missing run IDs are reported", C05 "never delivered to a different run ID"): a CBOR decoder leaves the
+// fields of its target that are absent from the input untouched. A message loop that decodes every message into one
+// variable declared outside the loop therefore hands a message that omits a field (its run ID, its payload) the
+// previous message's value. The target of every Decode inside a loop must be allocated inside that loop (a fresh
+// zero value per iteration).
+func (c *Ctx) ruleFreshDecode(rule string, fns map[*ssa.Function]bool) {
+	n := 0
+	for _, fn := range c.M.SortedFuncs(fns) {
+		for i, call := range decodeLoopSites(fn) {
+			n++
+			k := key(rule, c.M.Key(fn), sprintf("Decode in loop #%d: fresh target per iteration", i+1))
+			if len(call.Call.Args) < 2 {
+				continue
+			}
+			target := call.Call.Args[1]
+			if mi, ok := target.(*ssa.MakeInterface); ok {
+				target = mi.X
+			}
+			al, ok := target.(*ssa.Alloc)
+			if !ok {
+				c.R.Bad(rule, k, c.M.InstrPos(call), "the target of a Decode inside a loop is not a local variable", "undecided = fail")
+				continue
+			}
+			b := call.Block()
+			// the allocation is per iteration iff its block lies on the cycle through the Decode
+			ab := al.Block()
+			if ab == b || (blockReaches(ab, b, nil) && blockReaches(b, ab, nil)) {
+				c.R.Ok(rule, k, c.M.InstrPos(call), "Decode in a message loop", "the target is allocated inside the loop: every message starts from the zero value")
+			} else {
+				c.R.Bad(rule, k, c.M.InstrPos(call), "every message of the loop is decoded into the same variable",
+					"the decoder leaves fields absent from a message untouched, so a message that omits its run ID (or payload) silently inherits the previous message's: it is processed for the wrong run instead of being reported")
+			}
+		}
+	}
+	c.R.Note("%s: %d Decode calls inside loops", rule, n)
+}
